@@ -124,8 +124,18 @@ SEEDTABLE
 
 Thirty-three faults were missed on the first run by the check of their own property (bold above): in thirty-one cases the generator did not reach the specific
 trigger (in C17-f: the harness never used the same input object twice), in one (C05-c) the faulty reader crashed the node process and the check called that an infrastructure error, and in one (C18-c) the check stopped observing when the
-concurrent reads had returned, so a cache left inconsistent was never read again. The checks were strengthened (last column) and all 132 are now detected by the check of their own property (the first 79 also with `VERIF_SEED=1`);
-`tools/reseed_all.py` re-applies every stored fault and re-runs its check (regression of the mutation corpus).
+concurrent reads had returned, so a cache left inconsistent was never read again. The checks were strengthened (last column) and all 132 are now detected by the check of their own property, with `VERIF_SEED` 0 and 3 (the first 79 also with 1); the full regression at seed 3 showed one fault, C14-c, detected only by
+luck of the draw — C14 now starts with a systematic sweep of (frame count × index of the first / last observation);
+What the misses had in common (none was an oracle that accepted a wrong answer; every one was an input the harness never produced): (1) **values and shapes** the
+generators did not reach — non-ASCII names beyond one code point, negative / tiny confidences, rates that are not multiples of 0.01, geometry at another scale, headers above the
+10 KiB prefetch, zero-frame files, non-contiguous arrays, limb ≠ colour counts; (2) **state and history** — a header-cache entry left by an earlier read, an in-place edit of a
+result before the next read, the same input object used twice, an array that did not come out of the constructor, a read *after* the concurrent ones; (3) **the same path through
+another class** — torch / tensorflow bodies on truncated or windowed reads, the directory loader next to the dictionary loader; (4) **compositions** — bbox → selection → bbox,
+interpolate → torch → selection, rejoin → zero_filled. Each strengthening is recorded in the last column and stays in the check; the stored faults are the regression corpus.
+
+`tools/reseed_all.py` re-applies every stored fault to `/repo` in turn and re-runs its check (regression of the mutation corpus); `tools/reseed_parallel.py -j N` does the same on
+scratch worktrees of `/repo` under `/tmp` — `./check` verifies the tree named by `POSE_REPO` (default `/repo`), which is what lets N faults be checked at once without any of them
+ever touching `/repo`; its evidence goes to a scratch directory (`VERIF_EVIDENCE_DIR`). The registered commands of MANIFEST.json use neither variable.
 
 ### 0.6 What the tooling could not do
 
